@@ -451,22 +451,32 @@ func (v *Vue) callFunc(ctx *VueContext, fn any, args ...any) (any, error) {
 		// Single return value; a function whose only result is an error reports
 		// failure or success, it does not produce a value
 		if fnType.Out(0) == reflect.TypeOf((*error)(nil)).Elem() {
-			if err, ok := out[0].Interface().(error); ok && err != nil {
-				return nil, err
-			}
-			return nil, nil
+			return nil, resultError(out[0])
 		}
 		return out[0].Interface(), nil
 	case 2:
 		// Two return values - second should be error
 		result := out[0].Interface()
-		if err, ok := out[1].Interface().(error); ok && err != nil {
-			return result, err
-		}
-		return result, nil
+		return result, resultError(out[1])
 	default:
 		return nil, fmt.Errorf("function returns too many values")
 	}
+}
+
+// resultError reads the error out of a result of a registered function. A result of a
+// concrete pointer type (func() (string, *MyErr)) that is nil is no error: boxed into
+// the error interface the nil pointer would be a non-nil error value.
+func resultError(v reflect.Value) error {
+	switch v.Kind() {
+	case reflect.Pointer, reflect.Interface, reflect.Map, reflect.Slice, reflect.Func, reflect.Chan:
+		if v.IsNil() {
+			return nil
+		}
+	}
+	if err, ok := v.Interface().(error); ok {
+		return err
+	}
+	return nil
 }
 
 // callRecovering calls a registered function. A panic inside it must not take the render
